@@ -489,12 +489,13 @@ def minimal_script(lhs, rhs, rules, fam='TOP'):
 # ------------------------------------------------------------------------------------------- statement level
 
 def _sym_token(pc_, ex, st, kind):
-    """a symbolic token of the given kind: 'trivia' (Whitespace or Comment.Single, by equality as in EOS_TTYPE),
-    'other' (anything else)"""
+    """a symbolic token of the given kind, as the PROPERTY draws the line (C05: "blanks and `--` comments after the
+    terminator stay"): 'trivia' = a blank (type Whitespace itself; a line break is not a blank) or a single-line comment
+    of any kind (Comment.Single and its optimizer-hint subtype); 'other' = anything else"""
     W = pc_.W
     t = STy(fresh('tok_t', W.TT))
     v = SStr(fresh('tok_v', z3.StringSort()))
-    eos = z3.Or(t.z == W.tt(W.T.Whitespace), t.z == W.tt(W.T.Comment.Single))
+    eos = z3.Or(t.z == W.tt(W.T.Whitespace), *[t.z == W.tt(x) for x in W.subtypes(W.T.Comment.Single)])
     st.assume(t.z != W.tt_none)
     st.assume(eos if kind == 'trivia' else z3.Not(eos))
     # lexer fact (bounded/assumed, C14): a keyword token's value contains at least one word
